@@ -22,20 +22,32 @@ ITER = re.compile(r"integrate\(\)\s*: iteration (\d+) : (\S+)")
 
 
 def parse_stream(text, epsilon):
-    """-> dict(steps, iterates, iterates_after_rejected_convergence, blocks[(hyp, loading, step, iterate, name, err, thr, after_rejection)],
-    converged, failures)"""
+    """-> dict(steps, iterates, converged, not_converged,
+    blocks: list of dict(hyp, loading, step, iterate, name, err, thr, switch, staggered, shape),
+    incs: {(hyp, loading, step, occurrence): [(isv name, size, max |increment|)]})"""
     lines = text.splitlines()
-    st = {"steps": 0, "iterates": 0, "switch_iterates": 0, "blocks": [], "converged": 0, "not_converged": 0}
+    st = {"steps": 0, "iterates": 0, "blocks": [], "converged": 0, "not_converged": 0, "incs": {}, "order": {}}
     cur = None
     it = None
     rejected = False
-    last_err = None
+    stag = False
+    occ = {}
     for i, l in enumerate(lines):
         if l.startswith("@@C43 STEP "):
             p = l.split()
-            cur = (p[2], p[3], int(p[4]))
+            k = (p[2], p[3], int(p[4]))
+            occ[k] = occ.get(k, 0) + 1
+            cur = k + (occ[k],)
             st["steps"] += 1
-            it, rejected, last_err = None, False, None
+            it, rejected, stag = None, False, False
+            continue
+        if l.startswith("@@C43 RC "):
+            p = l.split(None, 3)
+            if cur is not None and len(p) > 3:
+                st["incs"][cur] = [(x.split("=")[0], int(x.split("=")[1]), float(x.split("=")[2])) for x in p[3].split(";") if x.count("=") == 2]
+            continue
+        if "staggered algorithm" in l:
+            stag = True
             continue
         m = ITER.search(l)
         if m:
@@ -65,9 +77,74 @@ def parse_stream(text, epsilon):
                     err, thr = float(m.group(1)), float(m.group(2))
                 except ValueError:
                     continue
-                st["blocks"].append((cur[0], cur[1], cur[2], it, m2.group(1) + (m2.group(2) or ""), err, thr, rejected))
-    st["switch_iterates"] = len({(b[0], b[1], b[2], b[3]) for b in st["blocks"] if b[7]})
+                # number of values of the block = values printed before the "ndf..." line
+                nval, j = 0, i + 2
+                while j < len(lines) and not lines[j].startswith("ndf") and j < i + 40:
+                    nval += len(re.findall(r"[-+]?(?:\d+\.?\d*(?:[eE][-+]?\d+)?|nan|inf)", lines[j].replace("[", " ").replace("]", " ").replace(",", " ")))
+                    j += 1
+                st["blocks"].append({"hyp": cur[0], "loading": cur[1], "step": cur[2], "occ": cur[3], "iterate": it, "name": m2.group(1),
+                                     "idx": m2.group(2) or "", "err": err, "thr": thr, "switch": rejected, "staggered": stag, "nval": nval})
     return st
+
+
+def split_block(name):
+    """dfX_ddY -> (X, Y)"""
+    x, _, y = name[2:].rpartition("_dd")
+    return x, y
+
+
+def variable_order(st):
+    """order of the integration variables of each hypothesis, read from the comparison that printed most blocks
+    (the generated code loops over (v1, v2) pairs, v1-major)"""
+    best = {}
+    groups = {}
+    for b in st["blocks"]:
+        groups.setdefault((b["hyp"], b["loading"], b["step"], b["occ"], b["iterate"]), []).append(b)
+    for k, bl in groups.items():
+        if k[0] not in best or len(bl) > len(best[k[0]]):
+            best[k[0]] = bl
+    order = {}
+    sizes = st.setdefault("sizes", {})
+    for b in st["blocks"]:
+        x, y = split_block(b["name"])
+        if x == y and not b["idx"]:
+            sizes[(b["hyp"], x)] = int(round(b["nval"] ** 0.5))
+    for h, bl in best.items():
+        seen = []
+        for b in bl:
+            x, y = split_block(b["name"])
+            if x not in seen:
+                seen.append(x)
+        for b in bl:
+            x, y = split_block(b["name"])
+            if y not in seen:
+                seen.append(y)
+        order[h] = seen
+    return order
+
+
+MOVED = 100.0  # an unknown "moved" when its final increment exceeds MOVED x perturbation
+
+
+def judgeable(b, st, order, perturbation, sizes=None):
+    """may this printed block be judged?  -> (bool, reason)"""
+    if b["switch"]:
+        return False, "after-status-switch"
+    if b["iterate"] == 0 or b["iterate"] is None:
+        return False, "first-iterate-at-zero-increment"
+    if b["staggered"] and b["iterate"] != "final":
+        return False, "staggered-scheme-iterate"
+    x, y = split_block(b["name"])
+    incs = st["incs"].get((b["hyp"], b["loading"], b["step"], b["occ"]))
+    od = order.get(b["hyp"], [])
+    if incs is None or y not in od or od.index(y) >= len(incs):
+        return False, "unknown-not-mapped"
+    nme, sz, inc = incs[od.index(y)]
+    if sizes is not None and sizes.get((b["hyp"], y), sz) != sz:
+        return False, "unknown-not-mapped"
+    if not inc > MOVED * perturbation:
+        return False, "unknown-did-not-move"
+    return True, ""
 
 
 def epsilon_of(text):
@@ -147,39 +224,50 @@ def run(ctx):
         if res0 is None or st0 is None:
             ctx.inconc("probe pass failed for %s: %s" % (name, r0.err[-500:]))
             continue
-        judged = [b for b in st["blocks"] if not b[7]]
-        switch = [b for b in st["blocks"] if b[7]]
-        probe_ok = [b for b in st0["blocks"] if not b[7]]
-        worst = max([b[5] for b in probe_ok] + [0.0])
+        order = variable_order(st0)
+        sizes = st0.get("sizes", {})
+        judged, why = [], {}
+        for b in st["blocks"]:
+            ok, reason = judgeable(b, st, order, PERTURBATION, sizes)
+            if ok:
+                judged.append(b)
+            else:
+                why[reason] = why.get(reason, 0) + 1
+        probe_ok = [b for b in st0["blocks"] if judgeable(b, st0, order, PERTURBATION, sizes)[0]]
+        worst = max([b["err"] for b in probe_ok] + [0.0])
+        # the generated code compares the block norm with (number of values of the block) x criterion
+        wr = [(b["err"] / (max(b["nval"], 1) * CRITERION), b["name"]) for b in probe_ok]
+        worst_ratio = max(wr + [(0.0, "")])
         nblk = {}
         for b in probe_ok:
-            nblk[b[4]] = nblk.get(b[4], 0) + 1
-        nit = st["iterates"] + st["converged"]
-        ctx.add_eval(nit)
-        ctx.add_distinct_n(len({(b[0], b[1], b[2], b[3]) for b in probe_ok}))
+            nblk[b["name"]] = nblk.get(b["name"], 0) + 1
+        ctx.add_eval(st["iterates"] + st["converged"])
+        ctx.add_distinct_n(len({(b["hyp"], b["loading"], b["step"], b["occ"], b["iterate"]) for b in probe_ok}))
         calls = {h: (v["ok"], v["calls"]) for h, v in res["hyps"].items()}
-        table[name] = {"hypotheses": sorted(res["hyps"]), "steps": st["steps"], "newton_iterates": st["iterates"], "converged_steps": st["converged"],
-                       "calls_ok/total": calls, "mismatch_blocks": len(judged), "blocks_after_status_switch_skipped": len(switch),
-                       "probe_blocks_compared": len(probe_ok), "probe_blocks_by_name": nblk,
-                       "probe_max_difference": float("%.3g" % worst), "probe_max_difference_over_criterion": float("%.3g" % (worst / CRITERION))}
-        ctx.maxstat("max_difference_over_criterion", worst / CRITERION)
+        table[name] = {"hypotheses": sorted(res["hyps"]), "integration_variables": order, "steps": st["steps"], "newton_iterates": st["iterates"],
+                       "converged_steps": st["converged"], "calls_ok/total": calls, "mismatch_blocks_judged": len(judged),
+                       "mismatch_blocks_not_judged": why, "probe_blocks_compared": len(probe_ok), "probe_blocks_by_name": nblk,
+                       "probe_max_difference": float("%.3g" % worst),
+                       "probe_max_difference_over_threshold": [float("%.3g" % worst_ratio[0]), worst_ratio[1]]}
+        if not judged:
+            ctx.maxstat("max_difference_over_threshold (configurations without mismatch)", worst_ratio[0])
         if st["iterates"] < 20 or len(probe_ok) < 20:
-            ctx.inconc("%s: the comparison hardly ran (%d iterates, %d blocks seen with criterion 0)" % (name, st["iterates"], len(probe_ok)))
+            ctx.inconc("%s: the comparison hardly ran (%d iterates, %d judgeable blocks seen with criterion 0)" % (name, st["iterates"], len(probe_ok)))
         if judged:
-            # confirm with two other perturbations on the loadings concerned
-            names = sorted({b[4] for b in judged})
-            where = sorted({(b[0], b[1]) for b in judged})
+            # confirm with two other perturbations
+            names = sorted({b["name"] for b in judged})
             persist = set(names)
             for fac in (10.0, 0.1):
                 resx, rx = drive(ctx, s, libs[name], CRITERION, PERTURBATION * fac, nsteps, tag="c43c")
-                stx = parse_stream(rx.out, o["eps"]) if resx is not None else {"blocks": []}
-                persist &= {b[4] for b in stx["blocks"] if not b[7]}
+                stx = parse_stream(rx.out, o["eps"]) if resx is not None else {"blocks": [], "incs": {}}
+                persist &= {b["name"] for b in stx["blocks"] if judgeable(b, stx, order, PERTURBATION * fac, sizes)[0]}
             for nm in names:
-                wit = [b for b in judged if b[4] == nm][:5]
+                wit = [b for b in judged if b["name"] == nm]
                 if nm in persist:
-                    ctx.violation("%s:%s" % (name, nm), "analytical and numerical jacobian blocks %s differ above the criterion (perturbations 1e-8, 1e-9, 1e-10): %s"
-                                  % (nm, [(b[0], b[1], b[2], b[3], b[5], b[6]) for b in wit]),
-                                  {"configuration": name, "features": s["features"], "block": nm, "witnesses": wit, "text": s["text"]})
+                    w5 = [(b["hyp"], b["loading"], b["step"], b["iterate"], b["err"], b["thr"]) for b in wit[:6]]
+                    ctx.violation("%s:%s" % (name, nm), "analytical and numerical jacobian blocks %s differ above the criterion at %d iterates in %s "
+                                  "(perturbations 1e-8, 1e-9, 1e-10), first: %s" % (nm, len(wit), sorted({b["hyp"] for b in wit}), w5),
+                                  {"configuration": name, "features": s["features"], "block": nm, "witnesses": wit[:20], "text": s["text"]})
                 else:
                     ctx.count("mismatch-not-reproduced-with-other-perturbation")
     ctx.require(len(table) >= (6 if not ctx.thorough else 60), "too few configurations were driven (%d)" % len(table))
